@@ -74,6 +74,63 @@ pub fn gen_witnessed_project(rng: &mut Rng, lang: SupportLang, nodes: &[N], dept
   Project { rule, utils, constraints: vec![] }
 }
 
+/// A relational rule that has to RETRY: `{pattern: $Q0, kind: K, <rel>: {pattern: P2, stopBy: end}}` where P2 is
+/// the text of a LATER candidate of the relation with its first named child replaced by a hole, and an EARLIER
+/// candidate of the same kind differs outside that child — it binds the hole and then fails, and nothing of
+/// that attempt may be left when the later candidate is tried.
+pub fn gen_retry_project(rng: &mut Rng, nodes: &[N]) -> Option<(Project, (usize, usize), (usize, usize), String)> {
+  for _ in 0..40 {
+    let n = rng.pick(nodes).clone();
+    if !n.is_named() {
+      continue;
+    }
+    let rel_kind = rng.below(4);
+    let cands: Vec<N> = match rel_kind {
+      0 => n.dfs().skip(1).take(400).collect(),
+      1 => n.ancestors().collect(),
+      2 => n.next_all().collect(),
+      _ => n.prev_all().collect(),
+    };
+    let minus_first = |c: &N| -> Option<(String, String)> {
+      let ch = c.children().find(|x| x.is_named())?;
+      let t = c.text().to_string();
+      let (a, b) = (ch.range().start - c.range().start, ch.range().end - c.range().start);
+      if a == 0 && b == t.len() {
+        return None; // the hole would be the whole pattern
+      }
+      Some((format!("{}$R0{}", &t[..a], &t[b..]), format!("{}{}", &t[..a], &t[b..])))
+    };
+    for j in 1..cands.len() {
+      let c2 = &cands[j];
+      if !c2.is_named() || c2.range().len() > 120 || c2.text().contains('$') {
+        continue;
+      }
+      let Some((p2, rest2)) = minus_first(c2) else { continue };
+      let earlier = cands[..j].iter().find(|c1| c1.kind_id() == c2.kind_id() && minus_first(c1).map(|m| m.1 != rest2).unwrap_or(false));
+      if earlier.is_none() {
+        continue;
+      }
+      let rel = Box::new(Rel { rule: RObj::one(RKey::Pattern { text: p2, selector: None, strictness: None }), stop: Stop::End, field: None });
+      let relk = match rel_kind {
+        0 => RKey::Has(rel),
+        1 => RKey::Inside(rel),
+        2 => RKey::Precedes(rel),
+        _ => RKey::Follows(rel),
+      };
+      let rule = RObj { keys: vec![RKey::Pattern { text: "$Q0".into(), selector: None, strictness: None }, RKey::Kind(n.kind().to_string()), relk] };
+      let p2text = match &rule.keys[2] {
+        RKey::Has(r) | RKey::Inside(r) | RKey::Precedes(r) | RKey::Follows(r) => match &r.rule.keys[0] {
+          RKey::Pattern { text, .. } => text.clone(),
+          _ => String::new(),
+        },
+        _ => String::new(),
+      };
+      return Some((Project { rule, utils: vec![], constraints: vec![] }, (n.range().start, n.range().end), (c2.range().start, c2.range().end), p2text));
+    }
+  }
+  None
+}
+
 pub fn gen_project(rng: &mut Rng, ing: &Ingredients, depth: usize, allow_vars: bool, with_constraints: bool) -> Project {
   let mut counter = 0usize;
   let mut utils: Vec<(String, RObj)> = vec![];
@@ -150,7 +207,13 @@ pub fn run_stream(o: &Opts, which: &str) {
       for _ in 0..per_src {
         let shared = which == "c04";
         let wc = shared && rng.chance(1, 3);
-        let p = if rng.chance(1, 2) {
+        let retry = if shared && rng.chance(1, 4) { gen_retry_project(&mut rng, &dc.nodes) } else { None };
+        let mut witness: Option<((usize, usize), (usize, usize), String)> = None;
+        let p = if let Some((p, nr, cr, p2)) = retry {
+          out.count("gen:retry-candidates");
+          witness = Some((nr, cr, p2));
+          p
+        } else if rng.chance(1, 2) {
           out.count("gen:witnessed");
           gen_witnessed_project(&mut rng, lang, &dc.nodes, if o.thorough { 3 } else { 2 }, shared)
         } else {
@@ -170,6 +233,25 @@ pub fn run_stream(o: &Opts, which: &str) {
           continue;
         };
         loaded += 1;
+        // direct oracle of the retry construction: if the later candidate matches the relation's pattern on a
+        // fresh environment, the rule must match the witness node — whatever earlier candidates bound and lost
+        if let Some(((ns, ne), (cs, ce), p2)) = &witness {
+          use ast_grep_core::{Pattern, matcher::MatcherExt as _};
+          let n = dc.nodes.iter().find(|x| x.range().start == *ns && x.range().end == *ne && x.is_named());
+          let c2 = dc.nodes.iter().find(|x| x.range().start == *cs && x.range().end == *ce && x.is_named());
+          if let (Some(n), Some(c2), Ok(pat)) = (n, c2, Pattern::try_new(p2, lang)) {
+            let alone = c2.dfs().take(1).any(|x| pat.match_node(x).is_some());
+            out.checked();
+            if alone {
+              out.count("retry:later-candidate-matches-alone");
+              let m = catch_unwind(AssertUnwindSafe(|| core.match_node(n.clone()).is_some())).unwrap_or(false);
+              if !m {
+                out.oracle_fail("", &format!("{lang}: the relation's pattern {p2:?} matches the candidate {:?} on a fresh environment, yet the rule does not match {:?}: an earlier, rejected candidate influenced the outcome; rule {}",
+                  c2.text(), n.text().chars().take(120).collect::<String>(), serde_json::to_string(&p.yaml()).unwrap()), json!({"stream": which, "rule": p.yaml(), "source": src, "lang": lang.to_string()}));
+              }
+            }
+          }
+        }
         // node sample: all nodes when small, else a seeded sample always including the root
         let mut pick: Vec<usize> = if dc.nodes.len() <= 80 { (0..dc.nodes.len()).collect() } else {
           let mut v = vec![0];
